@@ -10,13 +10,14 @@ from . import c04, c08
 ALLOWED = [
     ("storage-load", re.compile(r"^cw_storage_plus::(item::)?Item::load$"), "PAIR_INFO exists after instantiation"),
     ("address", re.compile(r"^cosmwasm_std::(\S*::)?Api::addr_(canonicalize|humanize|validate)$"), "stored canonical addresses / the cw20 envelope's sender are valid addresses"),
-    ("query", re.compile(r"^(haloswap::asset::PairInfoRaw::query_pools|haloswap::asset::AssetInfo::query_pool|haloswap::querier::query_(token_info|token_balance|balance)|"
-                         r"cosmwasm_std::(\S*::)?QuerierWrapper::query|haloswap::asset::AssetInfoRaw::to_normal)$"), "balance / supply queries of live contracts"),
+    ("query", "QUERY_ROLES", "balance / supply queries of live contracts"),
     ("serialize", re.compile(r"^cosmwasm_std::(\S*::)?to_binary$"), "serialising plain message structs"),
     ("decode", re.compile(r"^cosmwasm_std::(\S*::)?from_binary$"), "the hook message decoded to WithdrawLiquidity on this path"),
     ("transfer-ctor", None, "the payout constructor (its own sites are classified too)"),
     ("handler", None, "the withdraw handler itself"),
 ]
+QUERY_ROLES = ("query_pools", "query_pool", "q_token_info", "q_token_balance", "q_balance", "info_to_normal")
+QUERY_STD = re.compile(r"^cosmwasm_std::(\S*::)?QuerierWrapper::query$")
 PANICKY = re.compile(r"(::option::Option::(unwrap|expect)$|::result::Result::(unwrap|expect|unwrap_err|expect_err)$)")
 
 
@@ -112,7 +113,10 @@ def run(ctx):
             ok = None
             if kind == "propagated":
                 for name, rx, why in ALLOWED:
-                    if rx is not None and rx.match(detail):
+                    if rx == "QUERY_ROLES":
+                        if QUERY_STD.match(detail) or any(ctx.N.is_fn(detail, r_) for r_ in QUERY_ROLES):
+                            ok = name
+                    elif rx is not None and rx.match(detail):
                         ok = name
                 if detail in helper_paths or generic_path(detail) in helper_paths:
                     ok = "path-function"
@@ -186,7 +190,7 @@ def run(ctx):
         for (b, op, item, v) in common.storage_sites(P, f, writes=False) + common.storage_sites(P, f, writes=True):
             if blocks is None or b in blocks:
                 items.add((item, op))
-    bad = [x for x in items if x[0] != "I:halo_pair::state::PAIR_INFO"]
+    bad = [x for x in items if x[0] != ctx.N.PAIR_INFO]
     if bad:
         a2.fail("C20.A2:storage:%s" % sorted(bad)[0][0], w.path, w.span, "the withdraw path touches storage other than PAIR_INFO: %s" % sorted(bad))
     else:
